@@ -147,16 +147,24 @@ def elemSkeleton : Elem → Bytes
   | .ident s => s
   | .bind n => B "{" ++ n ++ B "}"
   | .params [] => B "???"
-  | .params (p :: _) => B "{" ++ p.ident ++ B "}"
+  | .params (p :: ps) =>
+    -- every bind parameter of the list; the only non-bind is the capture limit of a match-all
+    B "{" ++ p.ident ++ B "}" ++
+      (ps.flatMap fun q => match q.val with
+        | .re _ => B "{" ++ q.ident ++ B "}"
+        | .lit _ => [])
 
+/-- the text before substitution; a route whose only segment is optional is "/" without it -/
 def skeleton (r : Route) (withOptional : Bool) : Bytes :=
-  go r.segs
+  match skeleton.go withOptional r.segs with
+  | [] => B "/"
+  | t => t
 where
-  go : List Segment → Bytes
+  go (withOptional : Bool) : List Segment → Bytes
     | [] => []
     | s :: rest =>
       if s.optional && !withOptional then []
-      else B "/" ++ s.elems.flatMap elemSkeleton ++ go rest
+      else B "/" ++ s.elems.flatMap elemSkeleton ++ go withOptional rest
 
 def isPrefixOf' : Bytes → Bytes → Bool
   | [], _ => true
